@@ -125,6 +125,7 @@ Definition g_op (s : sx) : op :=
   else if k =? "ESectionTyped" then ESectionTyped a b
   else if k =? "RefetchDwarf" then RefetchDwarf
   else if k =? "DIEAtOutside" then DIEAtOutside a b
+  else if k =? "LineEntriesFailing" then LineEntriesFailing a (EPy (gS (nthx 2 l))) c
   else if k =? "CUAtFailing" then CUAtFailing a (EPy (gS (nthx 2 l))) c
   else EGetTag a.
 
